@@ -54,6 +54,10 @@ func c08Topologies(thorough bool) []*sysgen.Spec {
 	add(sysgen.Spec{Name: "2p-4c-cl2-hybrid", Packages: 2, CoresPerNode: 4, Threads: 1, ClusterCores: 2, L2PerCluster: true, L3: "package", ECores: []int{3, 7}})
 	// hybrid and clustered across two packages: the cluster stage runs with candidate sets that span packages
 	add(sysgen.Spec{Name: "2p-hybrid-clusters", Packages: 2, CoresPerNode: 4, Threads: 1, ClusterCores: 2, L2PerCluster: true, L3: "package", ECores: []int{2, 3, 6, 7}})
+	// one package, two dies, each with a hyperthreaded P-core that is its own cluster and a cluster of two single-threaded
+	// E-cores (the shape of real multi-tile hybrid parts): the merging of single-core clusters into one P-cluster runs per die
+	add(sysgen.Spec{Name: "1p-2d-hybrid-1Pht+2E", Packages: 1, Dies: 2, CoresPerNode: 3, L2PerCluster: true, L3: "die",
+		CoreThreads: []int{2, 1, 1, 2, 1, 1}, ClusterOfCore: []int{0, 1, 1, 2, 3, 3}, ECores: []int{2, 3, 6, 7}})
 	{
 		s := sysgen.Spec{Name: "2p-2c-2t-freq", Packages: 2, CoresPerNode: 2, Threads: 2}
 		freq(&s, 8)
@@ -74,6 +78,8 @@ func c08Topologies(thorough bool) []*sysgen.Spec {
 		s := sysgen.Spec{Name: "hybrid-4P2t-4E", Packages: 1, CoresPerNode: 6, Threads: 2, AdjacentHT: true, ClusterCores: 2, L2PerCluster: true, L3: "package"}
 		s.ECores = []int{8, 9, 10, 11}
 		add(s)
+		add(sysgen.Spec{Name: "1p-2d-hybrid-2Pht+2E", Packages: 1, Dies: 2, CoresPerNode: 4, L2PerCluster: true, L3: "die",
+			CoreThreads: []int{2, 2, 1, 1, 2, 2, 1, 1}, ClusterOfCore: []int{0, 1, 2, 2, 3, 4, 5, 5}, ECores: []int{4, 5, 10, 11}})
 		s2 := sysgen.Spec{Name: "2p-3c-2t-freq", Packages: 2, CoresPerNode: 3, Threads: 2}
 		freq(&s2, 12)
 		add(s2)
